@@ -1171,8 +1171,11 @@ def randcap(nrand, ra, dec, rad, get_radius=False, dorot=False, rng=None):
 
         atbound(rand_ra, 0.0, 360.0)
 
-    if get_radius:
+        # back to degrees; in the dorot case the radii come from the
+        # recursive call and are already in degrees
         np.rad2deg(rand_r, rand_r)
+
+    if get_radius:
         return rand_ra, rand_dec, rand_r
     else:
         return rand_ra, rand_dec
